@@ -937,7 +937,22 @@ func roamRun(r *vh.Runner, c *vh.Case, i int) {
 	followerAddr := followerEP.Source()
 	expected := moverEP.Source()
 	var lastGenuine []byte // a genuine packet already delivered
-	third := func() *net.UDPAddr { return simnet.Addr(50000+rng.Intn(5000), 2000+rng.Intn(60000)) }
+	// other addresses: IPv4 with a new port, or (in some histories) IPv6
+	// addresses that often keep the port of the current one and differ from
+	// it in the address alone
+	family := rng.Pick(4, 4, 6, 46)
+	third := func() *net.UDPAddr {
+		if family == 6 || (family == 46 && rng.Bool()) {
+			ip := append(net.IP{0x20, 0x01, 0x0d, 0xb8}, rng.Bytes(12)...)
+			port := 2000 + rng.Intn(60000)
+			if rng.Chance(0.6) {
+				port = expected.Port
+			}
+			return &net.UDPAddr{IP: ip, Port: port}
+		}
+		return simnet.Addr(50000+rng.Intn(5000), 2000+rng.Intn(60000))
+	}
+	r.Count(fmt.Sprintf("roaming_address_family:%d", family), 1)
 	seq := uint32(0)
 	var history []string
 
